@@ -160,6 +160,10 @@ class ConcurrentStreamTestSuite:
                     target=self._run_test, args=(test, process_result, route_code)
                 )
                 threads[to_queue] = runner_thread, process_result
+                # Start the worker's run here rather than in its thread:
+                # startTestRun resets shouldStop, so done there it could
+                # wipe out a stop() issued (below) before the thread got going.
+                process_result.startTestRun()
                 runner_thread.start()
             while threads:
                 event_dict = queue.get()
@@ -181,7 +185,6 @@ class ConcurrentStreamTestSuite:
             raise
 
     def _run_test(self, test, process_result, route_code):
-        process_result.startTestRun()
         try:
             try:
                 test.run(process_result)
